@@ -525,7 +525,18 @@ def to_text(prog, final_newline=True):
         text = strip_names(text, prog)
         pr.text_of = {k: strip_names(v, prog) for k, v in pr.text_of.items()}
         if dt:
-            head = [DEFKW[t] + ' ' + l for l, t in sorted(dt.items())]
+            # consecutive letters of one type are written as a range
+            head = []
+            letters = sorted(dt)
+            i = 0
+            while i < len(letters):
+                j = i
+                while j + 1 < len(letters) and ord(letters[j + 1]) == ord(letters[j]) + 1 \
+                        and dt[letters[j + 1]] == dt[letters[i]]:
+                    j += 1
+                rng = letters[i] if i == j else letters[i] + '-' + letters[j]
+                head.append(DEFKW[dt[letters[i]]] + ' ' + rng)
+                i = j + 1
             text = '\n'.join(head) + '\n' + text
             pr.pos = {k: (ln + len(head), col) for k, (ln, col) in pr.pos.items()}
     return text, pr
